@@ -355,6 +355,14 @@ def labCastling (r : Rng) : Rng × Spec.SPos :=
           (r, if guest ≠ 0 ∧ sq ≠ 4 then b.set 4 (Spec.mkPc 1 guest) else b, rights &&& 12)
       else (r, b, rights)
     else (r, b, rights)
+  -- sometimes a pawn of the side to move stands one step from promoting next to an enemy corner rook: a promotion that captures
+  -- the rook on its home square must take the castling right with it (the right is lost by ANY capture there, also by a pawn's)
+  let (r, pc) := r.below 3
+  let (r, wing) := r.below 2
+  let b :=
+    if pc = 0 then
+      (if side = 0 then putPiece b (if wing = 0 then 49 else 54) 1 else putPiece b (if wing = 0 then 9 else 14) 7)
+    else b
   let (r, b) := sprinkle r b (n + 1) [2, 3, 3, 4, 4, 5, 8, 9, 9, 10, 10, 11, 1, 7]
   -- sometimes the opponent has just made a double pawn push: castling (and every other move) must then clear the
   -- en-passant square and its key component
@@ -396,9 +404,13 @@ def labEp (r : Rng) : Rng × Spec.SPos :=
   let b := if (which = 0 ∨ which = 2) ∧ f > 0 then b.set (pushed - 1) 1 else b
   let b := if (which = 1 ∨ which = 2) ∧ f < 7 then b.set (pushed + 1) 1 else b
   -- kings: sometimes on the fifth rank (rank discovery), otherwise anywhere
-  let (r, kr) := r.below 3
+  let (r, kr) := r.below 4
   let (r, ks) := r.below 64
-  let wk := if kr = 0 then 32 + ks % 8 else ks
+  -- kr = 3: the king stands where the pushed pawn attacks it — the double push gave check and capturing the checker en passant is
+  -- one of the ways out (the check-evasion masks of the generator must let that capture through)
+  let wk := if kr = 0 then 32 + ks % 8
+            else if kr = 3 then (if ks % 2 = 0 ∧ f > 0 then pushed - 9 else if f < 7 then pushed - 7 else pushed - 9)
+            else ks
   let b := putPiece b wk 6
   let (r, bk) := r.below 64
   let b := putPiece b bk 12
